@@ -118,14 +118,16 @@ type runLoopEnv struct {
 	cancel    context.CancelFunc
 }
 
+const stalledMsg = "Run loop stopped consuming its input channels (nothing accepted for 6 s)"
+
 func send[T any](ch chan T, v T, died chan string) (string, bool) {
 	select {
 	case ch <- v:
 		return "", true
 	case why := <-died:
 		return why, false
-	case <-time.After(20 * time.Second):
-		return "Run loop stopped consuming its input channels", false
+	case <-time.After(6 * time.Second):
+		return stalledMsg, false
 	}
 }
 
@@ -161,11 +163,27 @@ func runC13Loop(c procCase) (*vh.Violation, vh.Outcome) {
 		}()
 		_ = e.p.Run(ctx)
 	}()
-	defer func() { cancel(); <-done }()
+	defer func() {
+		cancel()
+		// a loop that is stuck sending to one of its own input channels is released by consuming them
+		for {
+			select {
+			case <-done:
+				return
+			case <-e.obsvC:
+			case <-time.After(3 * time.Second):
+				return // leak it: the verdict has been reached already
+			}
+		}
+	}()
 
 	garbage := &gossipv1.SignedObservation{Hash: []byte{1}, Signature: []byte{2}, Addr: []byte{3}}
 	barrier := func() (string, bool) { return send(e.obsvC, garbage, le.died) } // returns once the loop is back in select
 	fail := func(i int, x op, why string) (*vh.Violation, vh.Outcome) {
+		if why == stalledMsg {
+			// not a crash, but the statement's second sentence: the node keeps processing subsequent inputs
+			return vh.V("C13/run-loop-stalled", "op %d %+v: %s", i, x, why), out
+		}
 		return vh.V("C13/run-loop-died", "op %d %+v: %s", i, x, why), out
 	}
 	var cur *setInfo
